@@ -390,4 +390,12 @@ def r14_5(ctx):
     return out
 
 
-RULES = [r14_1, r14_2, r14_3, r14_4, r14_5]
+def r14_6(ctx):
+    from rules import C10
+    o = C10.r10_1(ctx)
+    o.rule = "R14.6"
+    o.text = ("no crossing is discarded on the evidence of a box cached before a curve was transformed in place (same analysis as R10.1)")
+    return o
+
+
+RULES = [r14_1, r14_2, r14_3, r14_4, r14_5, r14_6]
